@@ -139,6 +139,23 @@ def build():
 
     # --- message.rs
     ms_ = strip_comments(read("src/base/message.rs"))
+    # --- every constructor over raw octets goes through check_slice (HeaderSection size)
+    cs = fn_body(ms_, "check_slice", after="impl Message<[u8]>")
+    one(r"if\s+slice\.len\(\)\s*<\s*mem::size_of::<HeaderSection>\(\)\s*\{\s*Err\(\s*ShortMessage", cs, "Message::check_slice")
+    fo_ = fn_body(ms_, "from_octets", after="impl<Octs> Message<Octs>")
+    one(r"^\s*Message::check_slice\(\s*octets\.as_ref\(\)\s*\)\?\s*;\s*Ok\(\s*unsafe\s*\{\s*Self::from_octets_unchecked\(\s*octets\s*\)\s*\}\s*\)\s*$", fo_, "Message::from_octets")
+    tf = fn_body(ms_, "try_from_octets", after="impl<Octs> Message<Octs>")
+    # either through check_slice or by comparing with the size of the whole header section
+    if not re.search(r"Message::check_slice\(\s*octets\.as_ref\(\)\s*\)|\.len\(\)\s*<\s*mem::size_of::<HeaderSection>\(\)", tf):
+        raise GenError("Message::try_from_octets: no length check against the header section")
+    if re.search(r"size_of::<Header>\(\)|size_of::<HeaderCounts>\(\)", tf):
+        raise GenError("Message::try_from_octets: length compared with a part of the header section")
+    fs_ = fn_body(ms_, "from_slice", after="impl Message<[u8]>")
+    one(r"^\s*Message::check_slice\(\s*slice\s*\)\?\s*;\s*Ok\(\s*unsafe\s*\{\s*Self::from_slice_unchecked\(\s*slice\s*\)\s*\}\s*\)\s*$", fs_, "Message::from_slice")
+    k = len(re.findall(r"pub\s+(?:unsafe\s+)?fn\s+\w+\s*\([^)]*\)\s*->\s*Result<\s*&?Self\s*,", ms_[:ms_.find("impl<Octs: ?Sized> Message<Octs>")]))
+    if k != 3:
+        raise GenError("message.rs: expected three checking constructors before the accessors, found %d" % k)
+    defs.append(("checking_constructors", "N", N(k)))
     cn = fn_body(ms_, "canonical_name")
     m = re.search(r"for\s+_\s+in\s+0\s*\.\.\s*(.*?)\{", cn, re.S)
     if not m:
